@@ -513,7 +513,7 @@ fn op_sections(src: Vec<Ev>, cap: usize) -> String {
             let it2 = r2.sections();
             let (lo, hi) = it2.size_hint();
             let c = it2.count();
-            let mut r3 = Reader::new(Script::new(again));
+            let mut r3 = Reader::new(Script::new(again.clone()));
             let last = r3.sections().last();
             let want_last = if n == 0 { "done".to_string() } else { out[n - 1].clone() };
             if c != n || lo > n || hi.map_or(false, |h| h < n) {
@@ -522,6 +522,34 @@ fn op_sections(src: Vec<Ev>, cap: usize) -> String {
             } else if sec_item(last) != want_last {
                 let k = out.len() - 1;
                 out[k] = "adaptor-differ:last".to_string();
+            } else {
+                // nth(k) (and with it skip() and step_by()) on fresh iterators: the k-th item of the drain
+                for k in 0..=n.min(6) {
+                    let mut r4 = Reader::new(Script::new(again.clone()));
+                    let got = sec_item(r4.sections().nth(k));
+                    let want = if k < n { out[k].clone() } else { "done".to_string() };
+                    if got != want {
+                        let j = out.len() - 1;
+                        out[j] = format!("adaptor-differ:nth({})", k);
+                        break;
+                    }
+                    let mut r5 = Reader::new(Script::new(again.clone()));
+                    let got2 = sec_item(r5.sections().skip(k).next());
+                    if got2 != want {
+                        let j = out.len() - 1;
+                        out[j] = format!("adaptor-differ:skip({})", k);
+                        break;
+                    }
+                }
+                if n >= 2 && !out[out.len() - 1].starts_with("adaptor") {
+                    let mut r6 = Reader::new(Script::new(again.clone()));
+                    let stepped: Vec<String> = r6.sections().step_by(2).map(|x| sec_item(Some(x))).collect();
+                    let want: Vec<String> = out[..n].iter().step_by(2).cloned().collect();
+                    if stepped != want {
+                        let j = out.len() - 1;
+                        out[j] = "adaptor-differ:step_by(2)".to_string();
+                    }
+                }
             }
             return out.join(" ; ");
         }
